@@ -11,7 +11,7 @@ import (
 
 func init() {
 	register("C08",
-		"no function reachable from the exported API (or from a registered builtin) other than `init` writes package-level state, directly or by handing a package-level object to a callee that writes through that parameter (interprocedural parameter-write summaries); evaluation and field analysis never write through the tree they are given (node, token node, node list, source) - not even lazily; every parse allocates its own parser, scanner and source; the only ambient inputs (clock, random numbers, environment, runtime identity) are read by the builtins registered as `now` and `toDay`; loops over Go maps do not let the iteration order reach a result. No package-level map or slice is installed in a field that is written through elsewhere (shared state between objects); decimal results and reflective writes go into objects created in the same function.",
+		"no function reachable from the exported API (or from a registered builtin) other than `init` writes package-level state (a package-level sync.Map that is provably a memo of a pure function of its key - memo.go - is not hidden state), directly or by handing a package-level object to a callee that writes through that parameter (interprocedural parameter-write summaries); evaluation and field analysis never write through the tree they are given (node, token node, node list, source) - not even lazily; every parse allocates its own parser, scanner and source; the only ambient inputs (clock, random numbers, environment, runtime identity) are read by the builtins registered as `now` and `toDay`; loops over Go maps do not let the iteration order reach a result. No package-level map or slice is installed in a field that is written through elsewhere (shared state between objects); decimal results and reflective writes go into objects created in the same function.",
 		"equality of repeated results as values (only its causes - no hidden state, no ambient input, no order dependence - are decided) and determinism inside the standard library / decimal library.",
 		runC08)
 }
@@ -60,14 +60,29 @@ func c08Globals(c *Ctx, prop string) {
 			written[gw.Global] = append(written[gw.Global], gw)
 		}
 	}
+	var memos []string
 	for _, g := range globals {
 		ws := written[g]
 		if len(ws) == 0 {
 			c.R.Add(rule, "global:"+g, "-", OK, "")
 			continue
 		}
+		if gv, isG := c.P.Pkg.Members[g].(*ssa.Global); isG {
+			if m := c.isPureMemo(gv); m != nil {
+				// a memo of a pure function of its key (memo.go): what a Load yields does not depend on who stored it
+				c.R.Add(rule, "global:"+g, "-", OK, "")
+				memos = append(memos, fmt.Sprintf("%s (%d store site(s), %d load site(s))", g, m.Stores, m.Loads))
+				continue
+			}
+		}
 		w := ws[0]
-		c.R.Add(rule, "global:"+g, c.P.InstrPos(w.In), Violation, fmt.Sprintf("package-level variable %s is written outside init by %s (%s; %d site(s)); reached as %s. Hidden state makes results depend on what was parsed or evaluated before, and is a data race between goroutines", g, c.P.FuncKey(w.Fn), w.How, len(ws), rr.Chain(c.P, w.Fn)))
+		notMemo := ""
+		if gv, isG := c.P.Pkg.Members[g].(*ssa.Global); isG {
+			if m := c.pureMemos()[gv]; m != nil && m.Why != "" {
+				notMemo = " (not a memo of a function of its key: " + m.Why + ")"
+			}
+		}
+		c.R.Add(rule, "global:"+g, c.P.InstrPos(w.In), Violation, fmt.Sprintf("package-level variable %s is written outside init by %s (%s; %d site(s)); reached as %s. Hidden state makes results depend on what was parsed or evaluated before, and is a data race between goroutines%s", g, c.P.FuncKey(w.Fn), w.How, len(ws), rr.Chain(c.P, w.Fn), notMemo))
 	}
 	// writes to package-level state of other packages (e.g. decimal.Context128, time.Local)
 	for g, ws := range written {
@@ -91,6 +106,7 @@ func c08Globals(c *Ctx, prop string) {
 	}
 	c.R.Check(rule, "positive-control:init-writes-detected", "-", ninit >= 3, fmt.Sprintf("the global-write detector found only %d writes in the init functions (the builtin table, the keyword map and the token table are written there): the detector is not seeing writes", ninit))
 	c.R.Analysed["globals"] = globals
+	c.R.Analysed["pure_memo_tables_accepted"] = memos
 	c.R.Analysed["api_reachable_functions"] = nfn
 	c.R.Analysed["init_global_writes_seen"] = ninit
 	c.R.Floor(rule, 10)
